@@ -19,6 +19,117 @@ def family(fam):
     return SectionFile, "SECTIONS"
 
 
+# ---- list slots of a class tree: ("a", i) = the own default list of class i, ("t", i, j) = the j-th declared entry of its table
+def list_slots(classes):
+    out = []
+    for i, (_, act, tab) in enumerate(classes):
+        if i == 0:
+            continue                      # the framework base is never re-declared
+        if act is not None:
+            out.append(("a", i))
+        for j in range(len(tab or [])):
+            out.append(("t", i, j))
+    return out
+
+
+def get_slot(classes, s):
+    return classes[s[1]][1] if s[0] == "a" else classes[s[1]][2][s[2]][1]
+
+
+def put_slot(classes, s, v):
+    if s[0] == "a":
+        classes[s[1]][1] = v
+    else:
+        classes[s[1]][2][s[2]][1] = v
+
+
+def _default_is_entry(cl, i, j):
+    """class i's default list is the list declared for the j-th key (modulo the size) of the table it resolves to"""
+    k = i
+    while cl[k][2] is None:
+        k = cl[k][0]
+    t = cl[k][2]
+    if not t:
+        return []
+    e = t[j % len(t)]
+    cl[i][1] = e[1]
+    return [(i, e[0])]
+
+
+def arr_shared_default(cl):
+    # parent, child, sibling and grandchild-with-table declared over ONE default list
+    for i in (3, 4, 5):
+        cl[i][1] = cl[1][1]
+    return []
+
+
+def arr_default_is_entry(cl):
+    # LIST = _V1; VERSIONS = {"v1": _V1, ...}: first-declared key for the owner and the child, last-declared for the others
+    return _default_is_entry(cl, 1, 0) + _default_is_entry(cl, 3, 0) + _default_is_entry(cl, 4, -1) + _default_is_entry(cl, 5, -1)
+
+
+def arr_two_keys_one_list(cl):
+    # two keys declared over one list, the default being the list of the last-declared key
+    for i in (1, 4, 5):
+        t = cl[i][2]
+        if len(t) > 1:
+            t[0][1] = t[1][1]
+    return _default_is_entry(cl, 1, -1) + _default_is_entry(cl, 4, 0)
+
+
+def arr_tables_over_same_lists(cl):
+    # the sibling's and the grandchild's tables are declared over the owner's lists; their defaults are entries of the owner
+    t1 = cl[1][2]
+    for i in (4, 5):
+        for j, e in enumerate(cl[i][2]):
+            if t1:
+                e[1] = t1[(j + i) % len(t1)][1]
+    back = []
+    if t1:
+        cl[4][1] = t1[0][1]
+        cl[3][1] = t1[-1][1]
+        back = [(4, k) for k, x in cl[4][2] if x == t1[0][1]][:1]
+    return back
+
+
+ARRANGEMENTS = [arr_shared_default, arr_default_is_entry, arr_two_keys_one_list, arr_tables_over_same_lists]
+
+
+def arrange(cl, arr):
+    """re-binds list slots of the class tree in place; returns [(class, key whose list is that class's default)]"""
+    return ARRANGEMENTS[arr](cl)
+
+
+def sharing(classes):
+    """which kinds of shared list objects a class tree declares (for the input distribution)"""
+    kinds = set()
+    acts = {}
+    for i, (_, act, tab) in enumerate(classes):
+        if i and act is not None:
+            acts.setdefault(act, []).append(i)
+    if any(len(v) > 1 for v in acts.values()):
+        kinds.add("default_shared_between_classes")
+    for i, (_, act, tab) in enumerate(classes):
+        vals = [v for _, v in (tab or [])]
+        if len(set(vals)) < len(vals):
+            kinds.add("two_keys_one_list")
+        if i and act is not None:
+            k = i
+            while classes[k][2] is None:
+                k = classes[k][0]
+            if act in [v for _, v in classes[k][2]]:
+                kinds.add("default_is_entry_of_own_table")
+            if any(act in [v for _, v in (t or [])] for j, (_, _, t) in enumerate(classes) if j != k):
+                kinds.add("default_is_entry_of_other_table")
+    seen = {}
+    for i, (_, _, tab) in enumerate(classes):
+        for _, v in (tab or []):
+            seen.setdefault(v, set()).add(i)
+    if any(len(x) > 1 for x in seen.values()):
+        kinds.add("entry_shared_between_tables")
+    return sorted(kinds)
+
+
 class CHECK(Check):
     pid = "C19"
     entry = "C19"
@@ -28,7 +139,12 @@ class CHECK(Check):
             "{v1,v10,v2,V2,''} in every declaration order x request strings below/between/equal/above the keys x "
             "1-4 successive selections on any user class x three file families; a case is non-trivial when at "
             "least one selection changes an active list; distinct = distinct case hash"
-            " Later additions: the empty string as a version key.")
+            " Later additions: the empty string as a version key; one list object bound under several names (the "
+            "default list of a class is the list declared for one of its keys, two keys declared over one list, "
+            "parent/child/sibling classes declared over one shared default list, tables of different classes declared "
+            "over the same lists), in four fixed arrangements x every small table x every request followed by the "
+            "re-selection of the default's key, and as a random re-binding of 1-4 of the list slots before 2-5 "
+            "selections biased towards re-selecting on the same class with requests equal to declared keys.")
     exhaustive = False
     assumptions = ["Python attribute lookup on classes (MRO of single inheritance) is modelled, not verified"]
 
@@ -69,6 +185,41 @@ class CHECK(Check):
             ops = [[rng.choice([1, 2, 3, 4, 5, 5]), rng.choice(REQUESTS)] for _ in range(rng.randint(2, 4))]
             yield {"fam": rng.choice(FAMILIES), "classes": mk(tk, sk), "ops": ops}
 
+        # ---- one list object bound under several names ------------------------------------------------------------
+        # (value ids are list objects on the implementation side: equal ids = the very same list object, see impl)
+        # fixed arrangements, small tables, every request; the second selection asks for the key whose list was the default
+        small = [t for t in tables if 1 <= len(t) <= 2]
+        for fi, fam in enumerate(FAMILIES):
+            for ti, tk in enumerate(small):
+                for vi, v in enumerate(REQUESTS):
+                    for arr in range(len(ARRANGEMENTS)):
+                        for target in (1, 2, 3, 4, 5):
+                            if tier == "quick" and (arr != (ti + vi + fi) % len(ARRANGEMENTS) or target != 1 + (ti + 2 * vi + fi) % 5):
+                                continue
+                            cl = mk(tk, tk[::-1] if len(tk) > 1 else ["v1", "v2"])
+                            back = arrange(cl, arr)
+                            ops = [[target, v]]
+                            for c, k in back:
+                                if c == target or (target == 2 and c == 1):
+                                    ops.append([target, k])
+                            ops.append([1 if target != 1 else 4, v])
+                            yield {"fam": fam, "classes": cl, "ops": ops}
+        # random re-binding of list slots, then sequences that tend to come back to the same class with declared keys
+        n = 1200 if tier == "quick" else 12000
+        for _ in range(n):
+            cl = mk(rng.choice(tables), rng.choice(tables))
+            slots = list_slots(cl)
+            for _ in range(rng.randint(1, 4)):
+                a, b = rng.choice(slots), rng.choice(slots)
+                put_slot(cl, a, get_slot(cl, b))
+            ops = []
+            for _ in range(rng.randint(2, 5)):
+                c = ops[-1][0] if ops and rng.random() < 0.5 else rng.choice([1, 1, 2, 3, 4, 5, 5])
+                keys = [k for _, _, t in cl if t for k, _ in t]
+                v = rng.choice(keys) if keys and rng.random() < 0.6 else rng.choice(REQUESTS)
+                ops.append([c, v])
+            yield {"fam": rng.choice(FAMILIES), "classes": cl, "ops": ops}
+
     def impl(self, case):
         base, attr = family(case["fam"])
         objs = {}
@@ -76,7 +227,7 @@ class CHECK(Check):
             # real component lists: value id v is the list [register class with identifier "V<v>"], so that File.read
             # with the selected list can be observed too
             from .. import reglib
-            ids = set([1, 2, 3, 4, 5] + [v for _, _, t in case["classes"] if t for _, v in t])
+            ids = set([1, 2, 3, 4, 5] + [a for _, a, _ in case["classes"] if a is not None] + [v for _, _, t in case["classes"] if t for _, v in t])
             for v in ids:
                 rc = reglib.mk_register_class({"ident": "V%d;" % v, "digits": len("V%d;" % v), "fields": [{"k": "lit", "size": 3, "start": 6}]}, v)
                 lst = [rc]
@@ -113,8 +264,10 @@ class CHECK(Check):
     def ident_of(lst):
         if not lst:
             return 1
-        x = lst[0]
-        return x if isinstance(x, int) else getattr(x, "_verif_idx", -1)
+        one = lambda x: x if isinstance(x, int) else getattr(x, "_verif_idx", -1)
+        if len(lst) > 1:
+            return [one(x) for x in lst]          # never a declared list: every declared list has one component
+        return one(lst[0])
 
     def model_arg(self, case):
         cls = [[[] if p is None else [p], [] if a is None else [a],
@@ -178,7 +331,12 @@ class CHECK(Check):
         return any(step != t[0] for step in t) or any(case["classes"][c][2] or case["classes"][1][2] for c, _ in case["ops"])
 
     def classify(self, case):
-        return {"ops_%d" % len(case["ops"]): 1, "table_size_%d" % len(case["classes"][1][2]): 1, "fam_" + case["fam"]: 1}
+        d = {"ops_%d" % len(case["ops"]): 1, "table_size_%d" % len(case["classes"][1][2]): 1, "fam_" + case["fam"]: 1}
+        kinds = sharing(case["classes"])
+        d["lists_all_separate_objects" if not kinds else "lists_shared_objects"] = 1
+        for k in kinds:
+            d["shared_" + k] = 1
+        return d
 
     def signature(self, case, why):
         return why.split(":")[0]
@@ -188,6 +346,25 @@ class CHECK(Check):
             for i in range(len(case["ops"])):
                 c = dict(case)
                 c["ops"] = case["ops"][:i] + case["ops"][i + 1:]
+                yield c
+        # give a slot that shares its list with another slot a list object of its own again
+        import copy
+        slots = list_slots(case["classes"])
+        vals = [get_slot(case["classes"], s) for s in slots]
+        used = set(vals) | set(a for _, a, _ in case["classes"] if a is not None)
+        fresh = min(x for x in range(6, 8 + len(used)) if x not in used)
+        for s, v in zip(slots, vals):
+            if vals.count(v) > 1:
+                c = dict(case)
+                c["classes"] = copy.deepcopy(case["classes"])
+                put_slot(c["classes"], s, fresh)
+                yield c
+        # drop a declared version
+        for i, (_, _, tab) in enumerate(case["classes"]):
+            for j in range(len(tab or [])):
+                c = dict(case)
+                c["classes"] = copy.deepcopy(case["classes"])
+                del c["classes"][i][2][j]
                 yield c
 
     def neighbours(self, case, rng):
